@@ -547,9 +547,11 @@ class Obligation:
         return d
 
 
-def cut_by(facts, body, rule, action_desc, action_bbs, guard_desc, cut_edges, where=None):
+def cut_by(facts, body, rule, action_desc, action_bbs, guard_desc, cut_edges, where=None, per_visit=False):
     """Obligation: every action block is unreachable from entry once cut_edges
-    (the success edges of one guard) are removed."""
+    (the success edges of one guard) are removed - and, per_visit, also
+    unreachable from the action's own successors (in a loop the guard must be
+    re-established before every visit, not only before the first)."""
     if not action_bbs:
         raise AnchorLost(f"{rule}: no action site '{action_desc}' in {body.fn}")
     if not cut_edges:
@@ -562,8 +564,19 @@ def cut_by(facts, body, rule, action_desc, action_bbs, guard_desc, cut_edges, wh
         return Obligation(rule, body.fn, what, False,
                           f"{action_desc} at {body.where(bad[0])} is reachable without passing the success edge of {guard_desc}",
                           where=body.where(bad[0]), path=[f"bb{b}@{body.where(b)}" for b in (path or [])][:40])
+    if per_visit:
+        for a in sorted(set(action_bbs)):
+            starts = [s for s in body.succ[a] if (a, s) not in cut_edges]
+            blocks2, parents2 = reach(body, starts, cut_edges=cut_edges, want_parents=True)
+            again = [a] if a in blocks2 else []
+            if again:
+                path = witness_path(body, parents2, again[0])
+                return Obligation(rule, body.fn, what, False,
+                                  f"after {action_desc} at {body.where(a)}, it is reached again at {body.where(again[0])} (loop) without "
+                                  f"passing the success edge of {guard_desc} again: the guard holds for the first visit only",
+                                  where=body.where(again[0]), path=[f"bb{b}@{body.where(b)}" for b in (path or [])][:40])
     return Obligation(rule, body.fn, what, True,
-                      f"{len(set(action_bbs))} site(s) unreachable from entry without {sorted(cut_edges)[:4]}",
+                      f"{len(set(action_bbs))} site(s) unreachable from entry (and from themselves) without {sorted(cut_edges)[:4]}",
                       where=body.where(sorted(action_bbs)[0]))
 
 
